@@ -121,9 +121,10 @@ class EnsembleSampler(MarkovChain):
                 """
             )
 
+        # copy, so the walkers don't share memory with the array owned by the caller
         theta = (
             positions.reshape([positions.size, 1]) if positions.ndim == 1 else positions
-        )
+        ).copy()
 
         if theta.ndim != 2 or theta.shape[0] < (theta.shape[1] + 1):
             raise ValueError(
